@@ -241,4 +241,98 @@ theorem asyncOps_refines_run {σ} (g : Rng σ) (cfg : DevCfg) (r : DevRun) (rs :
   | nil => exact .nil
   | cons hab _ ih => exact .cons hab ih
 
+/-! ## validity of calls (the application contract, and well-formed decoded views in the script) -/
+
+def ScriptItem.wf : ScriptItem → Bool
+  | .frame _ v => viewWF v
+  | _ => true
+
+def scriptWF (s : List ScriptItem) : Bool := s.all ScriptItem.wf
+
+/-- the application-side contract of a call (as `validEv`), plus the representation facts of the
+decoded views the script contains -/
+def AsyncOp.valid (r : RegionId) : AsyncOp → Bool
+  | .send data port _ script => (port != 0 || data.isEmpty) && decide (data.length ≤ 222) && scriptWF script
+  | .join script => scriptWF script
+  | .abp _ _ _ => true
+  | .setAdr _ => true
+  | .setDr dr => isUplinkDatarate r dr
+
+theorem nextItem_wf {s : List ScriptItem} (h : scriptWF s = true) :
+    (nextItem s).1.wf = true ∧ scriptWF (nextItem s).2 = true := by
+  cases s with
+  | nil => exact ⟨rfl, rfl⟩
+  | cons i rest =>
+    simp only [scriptWF, List.all_cons, Bool.and_eq_true] at h
+    exact ⟨h.1, h.2⟩
+
+theorem leadFrames_wf {s : List ScriptItem} (h : scriptWF s = true) :
+    csWF (leadFrames s).1 = true ∧ scriptWF (leadFrames s).2 = true := by
+  induction s with
+  | nil => exact ⟨rfl, rfl⟩
+  | cons i rest ih =>
+    simp only [scriptWF, List.all_cons, Bool.and_eq_true] at h
+    cases i with
+    | ok => exact ⟨rfl, h.2⟩
+    | err => exact ⟨rfl, h.2⟩
+    | frame snr v =>
+      obtain ⟨h1, h2⟩ := ih h.2
+      refine ⟨?_, h2⟩
+      simp only [leadFrames, csWF, List.all_cons, Bool.and_eq_true]
+      exact ⟨h.1, h1⟩
+
+theorem frame_wf {i : ScriptItem} (h : i.wf = true) : rxWF i.frame? = true := by
+  cases i with
+  | ok => rfl
+  | err => rfl
+  | frame snr v => exact h
+
+theorem parseWin_wf (cc : Bool) {s : List ScriptItem} (h : scriptWF s = true) :
+    csWF (parseWin cc s).1.cs = true ∧ rxWF (parseWin cc s).1.f = true ∧ scriptWF (parseWin cc s).2 = true := by
+  have hb : csWF (parseBetween cc s).2.1 = true ∧ scriptWF (parseBetween cc s).2.2 = true := by
+    unfold parseBetween
+    split
+    · exact ⟨rfl, (nextItem_wf h).2⟩
+    · split
+      · exact leadFrames_wf (nextItem_wf h).2
+      · exact ⟨rfl, (nextItem_wf h).2⟩
+  unfold parseWin
+  split
+  · exact ⟨rfl, rfl, hb.2⟩
+  · unfold parseListen
+    have h1 := nextItem_wf hb.2
+    have h2 := nextItem_wf h1.2
+    have h3 := nextItem_wf h2.2
+    split
+    · exact ⟨hb.1, rfl, h1.2⟩
+    · split
+      · exact ⟨hb.1, rfl, h2.2⟩
+      · exact ⟨hb.1, frame_wf h2.1, h3.2⟩
+
+theorem abstractOp_valid (cfg : DevCfg) (r : RegionId) (op : AsyncOp) (h : op.valid r = true) :
+    validEvC r (abstractOp cfg op) = true := by
+  cases op with
+  | send data port conf script =>
+    simp only [AsyncOp.valid, Bool.and_eq_true] at h
+    obtain ⟨⟨h0, hl⟩, hs⟩ := h
+    have hw1 := parseWin_wf cfg.classC (nextItem_wf hs).2
+    have hw2 := parseWin_wf cfg.classC hw1.2.2
+    show validEvC r (abstractSendC cfg script data port conf) = true
+    unfold abstractSendC
+    split
+    · simp [validEvC, h0, hl, csWF, rxWF]
+    · simp only [validEvC, h0, hl, hw1.1, hw1.2.1, hw2.1, hw2.2.1, Bool.and_self]
+  | join script =>
+    simp only [AsyncOp.valid] at h
+    have hw1 := parseWin_wf cfg.classC (nextItem_wf h).2
+    have hw2 := parseWin_wf cfg.classC hw1.2.2
+    show validEvC r (abstractJoinC cfg script) = true
+    unfold abstractJoinC
+    split
+    · simp [validEvC, csWF, rxWF]
+    · simp only [validEvC, hw1.1, hw1.2.1, hw2.1, hw2.2.1, Bool.and_self]
+  | abp da nwk app => rfl
+  | setAdr on => rfl
+  | setDr dr => exact h
+
 end Model
